@@ -255,11 +255,12 @@ package drpcwire
 //@                       r.id == gid && pkt.ID == gpkt.ID && pkt.Kind == gpkt.Kind && pkt.Control == (gpkt.Control || fr.Control) &&
 //@                       len(pkt.Data) == len(gpkt.Data) + len(fr.Data)
 //@   loop 1 step [notdone] ok ==> !fr.Done && !idLess(fr.ID, gid)
-//@   site (*Class).Wrap#1 assert [malformed]          pfStatus(r.curr) == 2
-//@   site (*Class).New#1  assert [C09.overflow-justified] pfStatus(r.curr) == 1 && len(r.curr) > rdM(r) + 31
-//@   site (*Class).New#3  assert [monotone-justified] idLess(fr.ID, r.id)
-//@   site (*Class).New#4  assert [kind-justified]     fr.ID == r.id && !idZero(pkt.ID) && fr.Kind != pkt.Kind
-//@   site (*Class).New#5  assert [size-justified]     len(pkt.Data) > rdM(r)
+//@   site (*Class).Wrap assert [malformed]             pfStatus(r.curr) == 2
+//@   site (*Class).New assert [C09.overflow-justified] arg1 == "data overflow" ==> pfStatus(r.curr) == 1 && len(r.curr) > rdM(r) + 31
+//@   site (*Class).New assert [monotone-justified]     arg1 == "id monotonicity violation (fr:%v r:%v)" ==> idLess(fr.ID, r.id)
+//@   site (*Class).New assert [kind-justified]         arg1 == "packet kind change (fr:%v pkt:%v)" ==> fr.ID == r.id && !idZero(pkt.ID) && fr.Kind != pkt.Kind
+//@   site (*Class).New assert [size-justified]         arg1 == "data overflow (len:%v)" ==> len(pkt.Data) > rdM(r)
+//@   site (*Class).New assert [known-exit]             arg1 == "data overflow" || arg1 == "id monotonicity violation (fr:%v r:%v)" || arg1 == "packet kind change (fr:%v pkt:%v)" || arg1 == "data overflow (len:%v)"
 //@   ensures [ri]          err == nil ==> readerInv(r)
 //@   ensures [deliver]     err == nil ==> pkt.ID.Stream == r.id.Stream && pkt.ID.Message + 1 == r.id.Message
 //@   ensures [deliver-geq] err == nil ==> idLeq(old(r.id), pkt.ID) && len(pkt.Data) <= max0(rdM(r))
